@@ -8,6 +8,7 @@ import (
 	"sort"
 	"strings"
 	"sync"
+	"sync/atomic"
 	"time"
 
 	"github.com/gofrs/uuid"
@@ -24,6 +25,28 @@ type MemStore struct {
 	Last  *store.PersistedData
 	Saves int
 	Init  *store.PersistedData
+
+	// Explicit is set by the harness around its own SaveToStore / Shutdown calls. A save that arrives
+	// while it is unset comes from the persist loop: it is captured (blocked until the case ends), so
+	// that no save - and no purge of jobs - happens at a moment the harness did not choose.
+	Explicit int32
+	captured int32
+	release  chan struct{}
+}
+
+func NewMemStore() *MemStore { return &MemStore{release: make(chan struct{})} }
+
+func (s *MemStore) Captured() bool { return atomic.LoadInt32(&s.captured) == 1 }
+
+// Release lets the captured persist loop go (end of the case).
+func (s *MemStore) Release() {
+	s.mu.Lock()
+	defer s.mu.Unlock()
+	select {
+	case <-s.release:
+	default:
+		close(s.release)
+	}
 }
 
 func (s *MemStore) Load() (*store.PersistedData, error) {
@@ -34,6 +57,11 @@ func (s *MemStore) Load() (*store.PersistedData, error) {
 }
 
 func (s *MemStore) Save(d *store.PersistedData) error {
+	if s.release != nil && atomic.LoadInt32(&s.Explicit) == 0 {
+		atomic.StoreInt32(&s.captured, 1)
+		<-s.release
+		return nil
+	}
 	s.mu.Lock()
 	s.Last = d
 	s.Saves++
@@ -134,7 +162,7 @@ func (m *Machine) stateString() string {
 
 func NewMachine(t *rapid.T, cfg *Cfg) *Machine {
 	defs := GenDefs(t, cfg)
-	return NewMachineWithDefs(t, cfg, defs, &MemStore{})
+	return NewMachineWithDefs(t, cfg, defs, NewMemStore())
 }
 
 func NewMachineWithDefs(t *rapid.T, cfg *Cfg, defs *definition.PipelinesDef, mem *MemStore) *Machine {
@@ -224,6 +252,8 @@ func (m *Machine) Close() {
 	ctx, cancel := context.WithCancel(context.Background())
 	cancel()
 	done := make(chan struct{})
+	atomic.AddInt32(&m.mem.Explicit, 1)
+	m.mem.Release()
 	go func() {
 		defer close(done)
 		defer func() { _ = recover() }()
@@ -355,7 +385,7 @@ func (m *Machine) ActSchedule(t *rapid.T) {
 		if !undefined && info.Schedulable {
 			m.fail("C15", "pipeline %s listed as schedulable but an immediate schedule request is rejected: %v", p, err)
 		}
-		if s1.Digest() != s0.Digest() {
+		if m.defined(s1).Digest() != m.defined(s0).Digest() {
 			m.detail = fmt.Sprintf("before:\n%safter:\n%s", s0.Digest(), s1.Digest())
 			m.fail("C05", "rejected schedule request left a trace in the reported state")
 		}
@@ -374,6 +404,7 @@ func (m *Machine) ActSchedule(t *rapid.T) {
 		rec.Bad = "reserved variable"
 	} else if IsCyclic(def.Tasks) {
 		rec.Bad = "cyclic graph"
+		m.w.Stats.hit("graph:cyclic")
 	}
 	m.w.registerJob(rec)
 	immediate := len(rec.Runners) > 0
@@ -453,6 +484,9 @@ func (m *Machine) ActSchedule(t *rapid.T) {
 	}
 	if len(waiting) > 0 || len(running) > 0 {
 		m.w.Stats.hit("schedule-with-load")
+	}
+	if len(w1) >= 3 {
+		m.w.Stats.hit("waiting>=3")
 	}
 	m.afterStep()
 }
@@ -573,6 +607,9 @@ func (m *Machine) ActCancel(t *rapid.T) {
 	js1 := s1.Jobs[j.ID]
 	switch class {
 	case "canceled", "finished":
+		if j.MaybePurged && js1 == nil {
+			break // jobs of pipelines that are no longer defined are purged by any save
+		}
 		if js1 == nil || jobDigest(js0) != jobDigest(js1) {
 			m.detail = fmt.Sprintf("before: %s\nafter:  %s", jobDigest(js0), jobDigest(js1))
 			m.fail("C04", "cancel of the %s job #%d changed it", class, j.AcceptIdx)
@@ -643,6 +680,16 @@ func (m *Machine) deliver(o openRun, out Outcome) int {
 	}
 	if out.Kind == OutFail && o.rec.AllowFail {
 		m.w.Stats.hit("fail-allowed")
+		for _, td := range o.j.Def.Tasks {
+			for _, d := range td.DependsOn {
+				if d == o.rec.Task {
+					m.w.Stats.hit("fail-allowed:with-dependent")
+				}
+			}
+		}
+	}
+	if out.Kind == OutFail && !o.rec.AllowFail && len(o.j.Def.Tasks) >= 3 {
+		m.w.Stats.hit("fail:with-3-tasks")
 	}
 	m.w.mu.Lock()
 	o.rec.Released = true
@@ -765,7 +812,10 @@ func (m *Machine) ActRelease(t *rapid.T) {
 
 func (m *Machine) ActSave(t *rapid.T) {
 	m.stimulus("save")
+	m.w.Stats.hit("save")
+	atomic.AddInt32(&m.mem.Explicit, 1)
 	m.w.PR.SaveToStore()
+	atomic.AddInt32(&m.mem.Explicit, -1)
 	m.settle("save")
 	m.afterStep()
 }
@@ -801,11 +851,16 @@ func (m *Machine) ActReload(t *rapid.T) {
 			m.w.Stats.hit("reload:with-running")
 		}
 	}
+	for _, j := range m.order() {
+		if _, ok := nd.Pipelines[j.Pipeline]; !ok {
+			j.MaybePurged = true
+		}
+	}
 	m.w.Defs = nd
 	m.defHist = append(m.defHist, defGen{seq, nd})
 	m.w.PR.ReplaceDefinitions(nd)
 	s1 := m.settle("reload")
-	if jobsDigest(s0) != jobsDigest(s1) {
+	if jobsDigest(m.defined(s0)) != jobsDigest(m.defined(s1)) {
 		m.detail = fmt.Sprintf("before:\n%safter:\n%s", jobsDigest(s0), jobsDigest(s1))
 		m.fail("C16", "reload changed the reported jobs")
 	}
@@ -834,7 +889,7 @@ func (m *Machine) afterStep() {
 	for _, j := range ord {
 		js := s.Jobs[j.ID]
 		if js == nil {
-			if !m.cfg.Retention {
+			if !m.cfg.Retention && !j.MaybePurged {
 				m.fail("C15", "accepted job #%d is no longer reported", j.AcceptIdx)
 				m.fail("C03", "accepted job #%d is no longer reported", j.AcceptIdx)
 			}
@@ -922,19 +977,17 @@ func (m *Machine) checkVerdict(j *JobRec, js *JobSnap) {
 		}
 	}
 	switch {
-	case j.Bad != "":
-		if !js.Canceled || js.LastError == "" || len(ran) > 0 {
-			m.fail("C02", "job #%d cannot be started (%s): expected canceled with an error and no task run, got canceled=%v lastError=%q ran=%v", j.AcceptIdx, j.Bad, js.Canceled, js.LastError, ran)
-			m.fail("C18", "job #%d carries the reserved variable: expected canceled with an error and no task run, got canceled=%v lastError=%q ran=%v", j.AcceptIdx, js.Canceled, js.LastError, ran)
-		}
-		if js.Start != nil && (j.CancelWhileWait || j.Replaced) {
-			m.fail("C04", "job #%d was canceled while waiting but is reported started", j.AcceptIdx)
-		}
 	case j.CancelWhileWait || j.Replaced || j.ShutdownSeq != 0:
+		// (this includes jobs that could not have been started anyway)
 		if !js.Canceled || js.Start != nil || len(ran) > 0 {
 			m.fail("C04", "job #%d was canceled while waiting: expected canceled, never started, no task run; got canceled=%v started=%v ran=%v", j.AcceptIdx, js.Canceled, js.Start != nil, ran)
 			m.fail("C07", "job #%d was replaced/canceled while waiting: expected canceled, never started, no task run; got canceled=%v started=%v ran=%v", j.AcceptIdx, js.Canceled, js.Start != nil, ran)
 			m.fail("C11", "job #%d was waiting at shutdown: expected canceled, never started; got canceled=%v started=%v ran=%v", j.AcceptIdx, js.Canceled, js.Start != nil, ran)
+		}
+	case j.Bad != "":
+		if !js.Canceled || js.LastError == "" || len(ran) > 0 {
+			m.fail("C02", "job #%d cannot be started (%s): expected canceled with an error and no task run, got canceled=%v lastError=%q ran=%v", j.AcceptIdx, j.Bad, js.Canceled, js.LastError, ran)
+			m.fail("C18", "job #%d carries the reserved variable: expected canceled with an error and no task run, got canceled=%v lastError=%q ran=%v", j.AcceptIdx, js.Canceled, js.LastError, ran)
 		}
 	case j.CancelAcked || j.ForcedSeq != 0:
 		allBefore := len(notOK) == 0 && lastExit < j.CancelAckedSeq
@@ -1122,8 +1175,8 @@ func (m *Machine) Drain() {
 	// eventual clauses
 	s := m.snap
 	for _, j := range m.order() {
-		if _, ok := m.w.Defs.Pipelines[j.Pipeline]; !ok {
-			continue
+		if _, ok := m.w.Defs.Pipelines[j.Pipeline]; !ok || j.MaybePurged {
+			continue // the pipeline did not remain defined
 		}
 		js := s.Jobs[j.ID]
 		if js == nil {
@@ -1163,9 +1216,12 @@ func (m *Machine) stuckSummary(err error) string {
 
 // logFailure appends every failing history (also those rapid cannot reproduce, which it reports
 // without output) to $VERIF_FAILLOG.
+var failLogged int
+
 func logFailure(msg, full string) {
 	path := os.Getenv("VERIF_FAILLOG")
-	if path == "" {
+	failLogged++
+	if path == "" || failLogged > 40 {
 		return
 	}
 	f, err := os.OpenFile(path, os.O_APPEND|os.O_CREATE|os.O_WRONLY, 0o666)
@@ -1174,4 +1230,21 @@ func logFailure(msg, full string) {
 	}
 	defer f.Close()
 	fmt.Fprintf(f, "=== %s\n%s\n", msg, full)
+}
+
+// defined restricts a snapshot to the jobs of pipelines that are currently defined (jobs of other
+// pipelines are purged by any save, also by the automatic one).
+func (m *Machine) defined(s *Snap) *Snap {
+	c := &Snap{Jobs: map[uuid.UUID]*JobSnap{}, Pipelines: s.Pipelines}
+	m.w.mu.Lock()
+	defer m.w.mu.Unlock()
+	for id, j := range s.Jobs {
+		if rec := m.w.Jobs[id]; rec != nil && rec.MaybePurged {
+			continue
+		}
+		if _, ok := m.w.Defs.Pipelines[j.Pipeline]; ok {
+			c.Jobs[id] = j
+		}
+	}
+	return c
 }
